@@ -193,6 +193,22 @@ func (e *Exec) scenarioShape(path string, t types.Type, a string) ([]altFn, bool
 			gr := s.alloc(mkStruct(genT, map[string]Val{"config": cfg, "warner": Opaque{Tag: "warner", Typ: strFn}, "caser": cr, "formatters": SliceV{Arr: far, Len_: len(fmts), Cap: len(fmts)}}))
 			delete(s.Fresh, gr.Cell)
 			s.CellTypes[gr.Cell] = genT
+			// New() makes every map of the Generator; a scenario generator has them too
+			// (empty), whatever they are called
+			if gst, ok := genT.Underlying().(*types.Struct); ok {
+				ga0 := s.Heap[gr.Cell].(*Agg)
+				for fi := 0; fi < gst.NumFields(); fi++ {
+					if _, isMap := gst.Field(fi).Type().Underlying().(*types.Map); !isMap {
+						continue
+					}
+					if mv, isMV := ga0.Elems[fi].(MapV); isMV && mv.Cell == 0 {
+						mc := s.alloc(&MapAgg{Tag: gst.Field(fi).Name()})
+						delete(s.Fresh, mc.Cell)
+						ga0 = ga0.with(fi, MapV{Cell: mc.Cell})
+					}
+				}
+				s.Heap[gr.Cell] = ga0
+			}
 			sgFields := map[string]Val{"Generator": gr, "output": or}
 			if registered {
 				// schema with an id, registered in the generator's outputs under that id
